@@ -38,6 +38,10 @@ VERIF = os.path.dirname(os.path.dirname(os.path.abspath(__file__)))
 COQ = os.path.join(VERIF, 'coq')
 REPO = os.environ.get('VERIF_REPO', '/repo')
 NPROC = int(os.environ.get('VERIF_JOBS', '16'))
+# runs against a scratch worktree (seeded changes) keep their work files, replays and
+# evidence apart from those of /repo itself, so they can run concurrently and never
+# overwrite committed evidence
+TAG = '' if os.path.realpath(REPO) == '/repo' else '-' + re.sub(r'[^A-Za-z0-9]+', '_', REPO).strip('_')
 
 ALLOWED_AXIOMS = {
     # axioms declared by the standard library itself; each one that shows up
@@ -473,7 +477,7 @@ def main(mod):
     if argv and argv[0] == '--replay':
         return replay(mod, argv[1])
     t0 = time.time()
-    work = os.path.join(VERIF, '.work', prop)
+    work = os.path.join(VERIF, '.work', prop + TAG)
     shutil.rmtree(work, ignore_errors=True)
     os.makedirs(work, exist_ok=True)
     import_highdicom()
@@ -675,8 +679,9 @@ def main(mod):
         'wall_s': round(time.time() - t0, 2),
         'violations': n_viol,
     }
-    os.makedirs(os.path.join(VERIF, 'evidence'), exist_ok=True)
-    json.dump(ev, open(os.path.join(VERIF, 'evidence', f'{prop}.json'), 'w'), indent=1, default=str)
+    ev_dir = os.path.join(VERIF, 'evidence') if not TAG else os.path.join(VERIF, '.work', 'evidence' + TAG)
+    os.makedirs(ev_dir, exist_ok=True)
+    json.dump(ev, open(os.path.join(ev_dir, f'{prop}.json'), 'w'), indent=1, default=str)
     shutil.rmtree(work, ignore_errors=True)
     for ln in lines:
         print(ln)
